@@ -5,7 +5,7 @@ from .common import *
 from . import kengine
 from .kengine import H
 
-K_PROPS = ["c07", "c09", "c10", "c18"]          # modules under vlib/props driven by engine K (extended as properties are built)
+K_PROPS = ["c04", "c07", "c09", "c10", "c18"]          # modules under vlib/props driven by engine K (extended as properties are built)
 
 
 def load_props():
@@ -80,9 +80,7 @@ def run_k_property(mod, tier, only=None, write=True):
                 machinery.append(r)
         elif r.status in ("undischarged", "vacuous", "error"):
             undischarged.append(r)
-        elif r.status == "memdiag":
-            memdiag.append(r)
-        if r.memdiag and r.status != "memdiag":
+        if r.memdiag:
             memdiag.append(r)
 
     rc = 0
@@ -122,6 +120,11 @@ def run_k_property(mod, tier, only=None, write=True):
         "samples": [fmt_sample(r) for r in (passed[:3] + [x[0] for x in violations][:2] + undischarged[:2])] or [fmt_sample(r) for r in results[:2]],
         "obligations": len(results),
         "discharged": len(passed),
+        # explicit-state vocabulary mapped onto bounded model checking (defined here, measured per run):
+        "states": max(1, sum(r.steps for r in results)),          # SSA steps of the unrolled programs handed to the solver ("size of program expression")
+        "transitions": max(1, sum(r.vccs for r in results)),      # verification conditions generated from them
+        "traces_validated_against_impl": len([rep for r in results for rep in r.replays]),   # solver counterexample traces replayed against the natively compiled code
+        "states_transitions_note": "states = sum of CBMC SSA steps over the obligations of this run; transitions = sum of generated VCCs; traces_validated = counterexamples replayed natively",
         "undischarged": [{"harness": r.h.name, "why": r.reason} for r in undischarged],
         "machinery_errors": [r.h.name for r in machinery],
         "memory_model_diagnostics": [{"harness": r.h.name, "checks": sorted(set(f[2] for f in r.memdiag))[:5]} for r in memdiag],
